@@ -387,6 +387,11 @@ Proof. vm_compute. repeat split; reflexivity. Qed.
 Example nm_ops_managed : Forall op_managed nm_ops.
 Proof. repeat constructor. Qed.
 
+Example nm_ops_hyps :
+  Forall op_managed nm_ops /\
+  nodup_kv (s_writes (snd (exec_tree (init_sys true false 1 2 1) nm_ops 0))).
+Proof. split; [exact nm_ops_managed|]. apply nodup_kv_b_sound. vm_compute. reflexivity. Qed.
+
 (* ---- what op_managed's "0 < cts" excludes: the model stores a CommitAt(0) write at version 0
    (the Go code rejects that commit unless some entry carries an explicit version), and a
    version-0 delete is at or below the discard timestamp 0, so a compaction without overlap
